@@ -11213,3 +11213,49 @@ func firstWords(s string, n int) string {
 	}
 	return strings.Join(f, " ")
 }
+
+// ruleStateCounterIsWide (SW2): the generated C++ base classes number the protocol position 0 … 2·steps. The member that
+// holds it and the parameters it is passed through are declared in printed text; a type of 8 or 16 bits wraps for a
+// protocol with that many steps and the order check passes out-of-order calls (fix 17b7ecb: `uint8_t state_`, 128 steps).
+func ruleStateCounterIsWide(c *core.Ctx) {
+	const rule = "SW2"
+	c.Rule(rule, "cpp/protocols: every printed declaration of the protocol state (`<type> state_ = …`, the `attempted` / `current` parameters of the state-error helpers) uses a type of at least 32 bits", 2)
+	p := c.Pkg("internal/cpp/protocols")
+	if p == nil {
+		c.Undecided(rule, "anchor/internal/cpp/protocols", 0, "package not found")
+		return
+	}
+	decl := regexp.MustCompile(`\b([A-Za-z_][\w:]*(?:\s+(?:int|long|short|char))?)\s+(state_|attempted|current)\b\s*(=|,|\))`)
+	narrow := regexp.MustCompile(`^(u?int(8|16)_t|(un)?signed char|char|(unsigned )?short|bool|std::byte|std::u?int(8|16)_t|u?int_(fast|least)(8|16)_t)$`)
+	n := 0
+	for _, f := range p.Syntax {
+		if c.IsTestFile(f.Pos()) {
+			continue
+		}
+		ast.Inspect(f, func(m ast.Node) bool {
+			bl, ok := m.(*ast.BasicLit)
+			if !ok || bl.Kind != token.STRING {
+				return true
+			}
+			tv, ok := p.TypesInfo.Types[bl]
+			if !ok || tv.Value == nil {
+				return true
+			}
+			txt := constant.StringVal(tv.Value)
+			for _, mm := range decl.FindAllStringSubmatch(txt, -1) {
+				typ := strings.TrimSpace(mm[1])
+				if typ == "return" || typ == "unlikely" || typ == "if" {
+					continue
+				}
+				n++
+				key := fmt.Sprintf("%s %s#%d", typ, mm[2], n)
+				c.Check(!narrow.MatchString(typ), rule, "printed declaration/"+key, bl.Pos(), "wide enough for any number of steps",
+					fmt.Sprintf("the protocol state is declared `%s %s`: with 2·steps (reader) or steps (writer) beyond its range the counter wraps, out-of-order calls pass the check and later steps cannot be read", typ, mm[2]))
+			}
+			return true
+		})
+	}
+	if n == 0 {
+		c.Undecided(rule, "anchor/state_ declaration", 0, "no printed declaration of state_ found in cpp/protocols")
+	}
+}
